@@ -13,6 +13,22 @@ CHECKS = {
    technique="property-based differential testing (rapid) against an independent reference model of the WHATWG basic URL parser + native coverage-guided fuzzing of the same oracle",
    text="Generated (input, base) pairs from a URL grammar, mutated WPT vectors, token soup and arbitrary bytes are parsed through all three entry points and compared on failure/success, Href and all nine getters with a reference model written from the standard. Exploration: holds on every generated case; the class histogram in the evidence shows every parser state and failure state being entered.",
    ref="DESIGN.md §6 C01, §3", note=MODEL),
+ "C03": dict(
+   technique="stateful property-based testing (rapid): round-trip oracle url.Parse(u.Href()) == u after the parse and after every setter of a generated history; exemption computed from the reference model",
+   text="Generated start URLs and setter histories; after every step the serialization must parse again to the identical URL (Href + 9 getters). The statement's exception is computed per state from the reference model (dropped only where the standard's own state does not survive serialize-then-parse), not enumerated.",
+   ref="DESIGN.md §6 C03, §7.9", note="trusted base: url.Parse itself as the inverse (round trip), the reference model for the exemption only, rapid"),
+ "C04": dict(
+   technique="stateful property-based testing (rapid): validity predicate and getter-composition invariant evaluated after every step of generated parse/setter/resolve histories",
+   text="Generated start URLs followed by setter and resolve steps; after every step a validity predicate written from the statement (scheme syntax, host/path/credentials/port structure, printable ASCII, percent-encode-set and forbidden-code-point freedom, canonical IPv6) and the composition of Href from the individual getters are evaluated.",
+   ref="DESIGN.md §6 C04", note="trusted base: the predicate in harness/props/c04.go (written from the statement and the standard's set definitions), rapid"),
+ "C05": dict(
+   technique="stateful property-based differential testing (rapid): lock-step comparison of generated setter histories against the reference model's API setter algorithms",
+   text="Generated start URLs and 1..8 (setter, value) steps applied in lock step to the implementation and to the reference model's setters; Href and all nine getters are compared after every step, so partial application and rejection are checked exactly. The evidence histogram shows every setter outcome (guard, failure state, override early return) and all 81 ordered setter pairs.",
+   ref="DESIGN.md §6 C05, §3", note=MODEL),
+ "C19": dict(
+   technique="stateful property-based testing (rapid): derived accessors recomputed from primary getters after every step of generated parse/setter/resolve/clone histories",
+   text="Generated histories biased to alternate IPv4/IPv6/domain hosts, ports 0/default/empty and scheme changes; after every step IsIPv4, IsIPv6, DecodedPort, Scheme/Protocol, Query/Search, Fragment/Hash, OpaquePath and IsSpecialScheme are recomputed from Hostname, Port, Protocol and Href and compared.",
+   ref="DESIGN.md §6 C19", note="trusted base: the recomputation in harness/props/c19.go, rapid"),
 }
 
 NOT_YET = {}
